@@ -137,6 +137,10 @@ def run_shard(ctx, shard):
             # nothing but quoted text (no ordinary cell at all)
             rows = rng.choice([['"hello world"'], ['"-->|<-- not a diagram"', '  "second line"'], ['', '   "q"'], ['"a" "b"   "c"']])
         s = gen.text_of(rows)
+        if rng.random() < 0.05:
+            # a document that starts with a byte order mark or another invisible character (files saved by some editors)
+            s = rng.choice(['\ufeff', '\ufeff\ufeff', '\u200b', '\u00a0', '\u2060', '\r\n', '\x0c']) + s
+            ctx.tag('documents_with_invisible_first_character')
         if rng.random() < 0.3:
             s += '# Legend:\na = {fill:red}\nbig = {stroke: blue}\n'
         st = {'fill': rng.choice(COLORS), 'bg': rng.choice(COLORS), 'sc': rng.choice(COLORS), 'ff': rng.choice(FONTS),
